@@ -141,6 +141,18 @@ def frame_sig(fr):
     return d
 
 
+TASKER_VOLATILE = {"stamp", "path", "logPath", "logFile", "file", "flushStamp", "cycleStamp", "runner", "lasts",
+                   "desire", "status", "done"}
+
+
+def _plain(v, depth=0):
+    if v is None or isinstance(v, (bool, int, float, str)):
+        return True
+    if isinstance(v, (tuple, list)) and depth < 3:
+        return all(_plain(x, depth + 1) for x in v)
+    return False
+
+
 def tasker_sig(t):
     d = {"class": type(t).__name__, "name": t.name, "period": norm(getattr(t, "period", None)),
          "schedule": getattr(t, "schedule", None)}
@@ -151,19 +163,21 @@ def tasker_sig(t):
             d[k] = norm(getattr(t, k, None))
         d["moots"] = norm(getattr(t, "moots", None))
     else:
-        for k in ("prefix", "rule", "flushPeriod", "keep", "cycle", "reuse", "fileSize"):
-            if hasattr(t, k):
-                d[k] = norm(getattr(t, k))
+        # every plain-valued attribute of the tasker (its whole configuration), not a chosen few
+        for k, val in sorted(vars(t).items()):
+            if k in TASKER_VOLATILE or k in d:
+                continue
+            if _plain(val):
+                d["attr:" + k] = norm(val)
         if hasattr(t, "logs"):
             logs = []
             for lg in t.logs:
-                logs.append({"name": lg.name, "kind": getattr(lg, "kind", None), "rule": getattr(lg, "rule", None),
-                             "baseFileName": getattr(lg, "baseFileName", None),
-                             "loggees": norm(list(getattr(lg, "loggees", {}).items()))})
+                ent = {"loggees": norm(list(getattr(lg, "loggees", {}).items()))}
+                for k, val in sorted(vars(lg).items()):
+                    if k not in TASKER_VOLATILE and _plain(val):
+                        ent["attr:" + k] = norm(val)
+                logs.append(ent)
             d["logs"] = logs
-        for k in ("ha", "eha", "rxbs"):
-            if hasattr(t, k):
-                d[k] = norm(getattr(t, k))
     return d
 
 
